@@ -1,10 +1,10 @@
 #!/bin/bash
-# usage: confirm_seed.sh <ID> <k> [outname]  — independently confirm a seeded change from /tmp/seedout/<ID>/
+# usage: [SEED_SRC=dir] [SEED_BASE=commit] confirm_seed.sh <ID> <k> [outname]  — independently confirm a seeded change from $SEED_SRC/<ID>/ (default /tmp/seedout)
 # in a scratch worktree; on success store it under /verif/seeded/<outname>/
 set -u
 export GOFLAGS=-mod=mod GOPROXY=off GOSUMDB=off GOTOOLCHAIN=local
 id=$1; k=$2; out=${3:-$id-$k}
-src=/tmp/seedout/$id
+src=${SEED_SRC:-/tmp/seedout}/$id
 wt=/tmp/wt/confirm-$id-$k
 meta=$src/meta$k.json
 [ -f "$meta" ] || { echo "no meta"; exit 2; }
@@ -13,7 +13,7 @@ git -C /repo worktree add -q --detach "$wt" "$base" || exit 2
 cleanup(){ git -C /repo worktree remove --force "$wt" >/dev/null 2>&1; }
 trap cleanup EXIT
 pkgdir=$(python3 -c "import json;print(json.load(open('$meta'))['demo_pkg_dir'])")
-pkgdir=${pkgdir#/tmp/wt/$id/}; pkgdir=${pkgdir#./}
+pkgdir=${pkgdir#/tmp/wt/$id/}; pkgdir=${pkgdir#/tmp/wt7/$id/}; pkgdir=${pkgdir#./}
 demo=$(ls $src/demo${k}_test.go 2>/dev/null | head -1)
 [ -n "$demo" ] || { echo "no demo file"; exit 2; }
 runpat=$(grep -oE 'func (Test[A-Za-z0-9_]+)' "$demo" | awk '{print $2}' | paste -sd'|')
